@@ -238,8 +238,16 @@ def check_claimed_attempted(ck: Checker, m: "TransferModel", rule: str) -> int:
             pool = a.targets[0].id
         if pool is None:
             continue
-        # only the pool the loose-file add is fed from afterwards
-        if not any(pool in {nm.id for nm in ast.walk(c) if isinstance(nm, ast.Name)} for _x, c in m.trailing_add):
+        # only the pool the loose-file add is fed from afterwards (or a plain alias of it: `p = file_ids; p -= ...`)
+        tnames = {nm.id for _x, c in m.trailing_add for nm in ast.walk(c) if isinstance(nm, ast.Name)}
+        aliases = {pool}
+        for st in walk_own(move.node):
+            if isinstance(st, ast.Assign) and len(st.targets) == 1 and isinstance(st.targets[0], ast.Name) and isinstance(st.value, ast.Name):
+                if st.targets[0].id in aliases:
+                    aliases.add(st.value.id)
+                if st.value.id in aliases:
+                    aliases.add(st.targets[0].id)
+        if not (aliases & tnames):
             continue
         n += 1
         r = g.reach([d for lab, d in x.succ if lab != "exc"], skip_node=lambda y: y.id in fids, skip_edge=lambda p, lab, q: lab == "exc", include_start=True)
